@@ -10,6 +10,42 @@ use varpro::statistics::verif_access as acc;
 use varpro::statistics::FitStatistics;
 use varpro::util::Weights;
 
+/// native (f64 only) check of `confidence_band_radius` through the public API: for several probabilities the radius
+/// must equal t((1+p)/2; N-M-P) * sqrt(j_i^T Cov j_i) with j_i a row of the un-weighted [Phi | D_k c]
+pub trait NativeBand: HS {
+    fn native_band_check(_st: &FitStatistics<StubModel<Self>>, _si: &StatIn<Self>, _dof: usize, _out: &mut Out<Self>) {}
+}
+impl NativeBand for verif_sym::Sym {}
+impl NativeBand for f64 {
+    fn native_band_check(st: &FitStatistics<StubModel<f64>>, si: &StatIn<f64>, dof: usize, out: &mut Out<f64>) {
+        let (n, m, p) = (si.n, si.m, si.p);
+        let cov = st.covariance_matrix();
+        if cov.shape() != (m + p, m + p) {
+            return;
+        }
+        for prob in [0.5, 0.683, 0.95, 0.99995, 1e-4] {
+            let r = st.confidence_band_radius(prob);
+            out.fact("C14.native.band_len", r.len() == n, format!("{}", r.len()));
+            if r.len() != n {
+                continue;
+            }
+            let t = distrs::StudentsT::ppf((prob + 1.0) / 2.0, dof as f64);
+            for i in 0..n {
+                let j: Vec<f64> = (0..m + p).map(|col| if col < m { si.phi[(i, col)] } else { (0..m).map(|b| si.d[col - m][(i, b)] * si.c[b]).sum() }).collect();
+                let mut q = 0.0;
+                for a in 0..m + p {
+                    for b in 0..m + p {
+                        q += j[a] * cov[(a, b)] * j[b];
+                    }
+                }
+                let want = t * q.max(0.0).sqrt();
+                let ok = (r[i] - want).abs() <= 1e-7 * (1.0 + want.abs()) || (!want.is_finite() && !r[i].is_finite());
+                out.fact("C14.native.band_radius", ok, format!("p={prob}, dof={dof}, sample {i}: radius {} but t((1+p)/2; N-M-P)*sqrt(j^T Cov j) = {want}", r[i]));
+            }
+        }
+    }
+}
+
 pub struct StatIn<T: HS> {
     pub n: usize,
     pub m: usize,
@@ -41,11 +77,18 @@ pub fn make<T: HS>(cfg: &Cfg) -> StatIn<T> {
             })
         })
         .collect();
+    // optional decimal scale of the weights (native validation at extreme scales: absolute thresholds show up there)
+    let k = cfg.0.get("wscale10").and_then(|v| v.parse::<i32>().ok()).unwrap_or(0);
+    let mut scale = T::ratio(1, 1);
+    for _ in 0..k.abs() {
+        scale = if k > 0 { scale * T::ratio(10, 1) } else { scale * T::ratio(1, 10) };
+    }
     let w = match cfg.str("w", "diag").as_str() {
-        "none" => None,
+        "none" if k == 0 => None,
+        "none" => Some(DVector::from_element(n, scale)),
         _ => Some(DVector::from_fn(n, |i, _| {
             let (a, b) = small(i, 5);
-            T::var(&format!("w{i}"), a, b)
+            T::var(&format!("w{i}"), a, b) * scale
         })),
     };
     let y = DVector::from_fn(n, |i, _| {
@@ -92,7 +135,7 @@ pub fn calc<T: HS>(si: &StatIn<T>, mdl: &StubModel<T>) -> Result<FitStatistics<S
     acc::try_calculate_pub(mdl, yw.as_view(), &weights, si.c.as_view())
 }
 
-pub fn run<T: HS>(cfg: &Cfg, out: &mut Out<T>) {
+pub fn run<T: HS + NativeBand>(cfg: &Cfg, out: &mut Out<T>) {
     let si = make::<T>(cfg);
     let (n, m, p) = (si.n, si.m, si.p);
     let zero = T::ratio(0, 1);
@@ -124,8 +167,12 @@ pub fn run<T: HS>(cfg: &Cfg, out: &mut Out<T>) {
     };
     out.fact("C12.ok_when_determined", true, String::new());
     let dof = n - m - p;
+    #[cfg(verif_acc_dof)]
     out.fact("C12.dof", acc::degrees_of_freedom(&st) == dof, format!("dof {} expected {}", acc::degrees_of_freedom(&st), dof));
+    #[cfg(verif_acc_counts)]
     out.fact("C13.counts", acc::counts(&st) == (m, p), format!("{:?}", acc::counts(&st)));
+    // native only (f64): the confidence band radius against an independent evaluation of t((1+p)/2; N-M-P) * sqrt(j^T Cov j)
+    T::native_band_check(&st, &si, dof, out);
     // ---- spec-side quantities
     // weighted residuals r_i = w_i y_i - w_i sum_j phi_ij c_j
     let r: Vec<T> = (0..n)
@@ -188,6 +235,18 @@ pub fn run<T: HS>(cfg: &Cfg, out: &mut Out<T>) {
             out.eq("C13.cov_times_hth", format!("(Cov*HtH)[{a},{b}]"), acc, if a == b { rse * rse } else { zero });
         }
     }
+    if !T::SYM {
+        // native runs only: the same identity normalised by sigma^2, so that the comparison is O(1) at any scale
+        for a in 0..m + p {
+            for b in 0..m + p {
+                let mut acc = zero;
+                for k in 0..m + p {
+                    acc = acc + cov[(a, k)] * hth[(k, b)];
+                }
+                out.eq("C13.native.cov_times_hth_normalised", format!("(Cov*HtH)[{a},{b}]/sigma^2"), acc / (rse * rse), if a == b { T::ratio(1, 1) } else { zero });
+            }
+        }
+    }
     for a in 0..m + p {
         for b in 0..a {
             out.eq("C13.cov_symmetric", format!("Cov[{a},{b}]"), cov[(a, b)], cov[(b, a)]);
@@ -224,8 +283,13 @@ pub fn run<T: HS>(cfg: &Cfg, out: &mut Out<T>) {
         }
     }
     // confidence band: sigma_i^2 = j_i^T Cov j_i with j_i row i of the UN-weighted Jacobian
+    #[cfg(not(verif_acc_sigma))]
+    out.notes.push("accessor for the stored band sigma unavailable (private field renamed?): C14.band_sigma_squared skipped".into());
+    #[cfg(verif_acc_sigma)]
     let us = acc::unscaled_sigma(&st);
+    #[cfg(verif_acc_sigma)]
     out.fact("C14.sigma_len", us.len() == n, format!("{}", us.len()));
+    #[cfg(verif_acc_sigma)]
     if us.len() == n {
         for i in 0..n {
             let mut q = zero;
